@@ -33,6 +33,7 @@ type Config struct {
 	Harness      []HarnessFile
 	OutDir       string
 	Patterns     []string // go list patterns relative to RepoDir; default: harness package dirs
+	NoRace       bool     // do not announce plain memory accesses (data-race detection off)
 	MapOrderPkgs []string // repo-relative dirs whose map ranges are made deterministic/enumerable
 	QuietPkgs    []string // repo-relative dirs whose functions run without plain scheduling points
 	SkipPkgs     []string // repo-relative dirs left un-instrumented
@@ -213,7 +214,7 @@ func Build(cfg Config) (string, error) {
 	})
 	inSet := func(list []string, rel string) bool {
 		for _, x := range list {
-			if x == rel || (strings.HasSuffix(x, "/...") && strings.HasPrefix(rel+"/", strings.TrimSuffix(x, "...")) ) {
+			if x == rel || (strings.HasSuffix(x, "/...") && strings.HasPrefix(rel+"/", strings.TrimSuffix(x, "..."))) {
 				return true
 			}
 		}
@@ -258,10 +259,11 @@ func Build(cfg Config) (string, error) {
 			paths = append(paths, abs)
 		}
 		info := &types.Info{
-			Types:     map[ast.Expr]types.TypeAndValue{},
-			Uses:      map[*ast.Ident]types.Object{},
-			Defs:      map[*ast.Ident]types.Object{},
-			Implicits: map[ast.Node]types.Object{},
+			Types:      map[ast.Expr]types.TypeAndValue{},
+			Uses:       map[*ast.Ident]types.Object{},
+			Defs:       map[*ast.Ident]types.Object{},
+			Implicits:  map[ast.Node]types.Object{},
+			Selections: map[*ast.SelectorExpr]*types.Selection{},
 		}
 		var terrs []string
 		tc := types.Config{Importer: imp, Error: func(err error) { terrs = append(terrs, err.Error()) }}
@@ -285,6 +287,8 @@ func Build(cfg Config) (string, error) {
 					}
 				}
 			}
+			rw.race = !cfg.NoRace && !strings.HasPrefix(filepath.Base(paths[i]), "zzverif_") && !strings.HasSuffix(paths[i], "_test.go")
+			rw.raceFile = filepath.Join(rel, filepath.Base(paths[i]))
 			rw.rewriteFile(af)
 			if len(rw.errs) > 0 {
 				return "", fmt.Errorf("instrument %s: %s", paths[i], strings.Join(rw.errs, "; "))
